@@ -64,7 +64,7 @@ def run(tier):
     out = os.path.join(wd, "cli.ndjson")
     r = tlc.run_tlc("CliGen", constants={"OutFile": out, "PinnedCount": False, "PinnedZeroArg": False}, workers=1, timeout=1500, heap="8g")
     if not r.ok or not os.path.exists(out):
-        if "ssumption" in r.out:
+        if "ssumption" in r.out and "is false" in r.out:
             vd.observe("model:contract-sanity", {"output": r.out[-3000:]})
         raise common.ToolError("CliGen failed\n" + r.out[-2000:])
     cfgs = [json.loads(l) for l in open(out) if l.strip()]
